@@ -316,6 +316,37 @@ pub fn labels(n: usize, class: LabelClass) -> BoxedStrategy<Vec<String>> {
     let len = pool.len();
     // choose n distinct indices: shuffle a selection mask via subsequence + shuffle
     let general = proptest::sample::subsequence(pool, n..=n.min(len)).prop_shuffle();
+    // generated spellings (not from the pools): short and very long alphanumeric labels, quoted labels over
+    // printable ASCII (without the double quote; the biodivine-reserved characters only in class Hostile)
+    let general = {
+        let quoted_ok = matches!(class, LabelClass::Quoted | LabelClass::Hostile);
+        let hostile_ok = class == LabelClass::Hostile;
+        let chars: Vec<char> = (' '..='~')
+            .filter(|c| *c != '"')
+            .filter(|c| hostile_ok || !"!&|^=<>()?:".contains(*c))
+            .chain("äß€λ".chars())
+            .collect();
+        let alnum = "[A-Za-z0-9]{1,14}".prop_map(|s| s).boxed();
+        let long = "[a-z0-9]{40,260}".prop_map(|s| s).boxed();
+        let quoted = vec(proptest::sample::select(chars), 1..=16).prop_map(|v| v.into_iter().collect::<String>()).boxed();
+        let one = if class == LabelClass::Plain {
+            alnum.clone()
+        } else if quoted_ok {
+            prop_oneof![3 => alnum.clone(), 1 => long.clone(), 3 => quoted].boxed()
+        } else {
+            prop_oneof![3 => alnum.clone(), 1 => long.clone()].boxed()
+        };
+        (general, proptest::bool::weighted(0.2), vec((any::<bool>(), one), n)).prop_map(|(mut ls, on, repl)| {
+            if on {
+                for (i, (take, l)) in repl.into_iter().enumerate() {
+                    if take && !ls.contains(&l) {
+                        ls[i] = l;
+                    }
+                }
+            }
+            ls
+        })
+    };
     if matches!(class, LabelClass::Quoted | LabelClass::Hostile) && n <= 9 {
         // confusable label sets: labels that look like pieces of formula syntax / of each other when
         // printed next to each other (e.g. and("a,b",c) vs and(a,"b,c"))
